@@ -191,6 +191,13 @@ def pyfftw_call(array_in, array_out, direction='forward', axes=None,
         plan_arr_in = array_in
         flags = [_flag_odl_to_pyfftw(planning_effort)]
 
+    # Planning overwrites the output array, too. For an in-place transform
+    # that array holds the data, hence plan in-place on the scratch array.
+    if must_copy_array_in and array_out is array_in:
+        plan_arr_out = plan_arr_in
+    else:
+        plan_arr_out = array_out
+
     if fftw_plan_in is None:
         if threads is None:
             if plan_arr_in.size <= 4096:  # Trade-off wrt threading overhead
@@ -199,7 +206,8 @@ def pyfftw_call(array_in, array_out, direction='forward', axes=None,
                 threads = cpu_count()
 
         fftw_plan = pyfftw.FFTW(
-            plan_arr_in, array_out, direction=_flag_odl_to_pyfftw(direction),
+            plan_arr_in, plan_arr_out,
+            direction=_flag_odl_to_pyfftw(direction),
             flags=flags, planning_timelimit=planning_timelimit,
             threads=threads, axes=axes)
     else:
